@@ -943,17 +943,15 @@ func (vm *VM) throw(err *RuntimeError, noTrace bool) error {
 		return err
 	}
 
+	// make the handling frame current before its handlers are consulted, so that
+	// a handler whose catch and finally are already consumed passes the error on
+	// to the next enclosing handler of that frame (or of its callers).
 	vm.frameIndex = index + 1
-
-	if e := vm.handleThrownError(frame, err); e != nil {
-		return e
-	}
-
 	vm.curFrame = frame
-	vm.curFrame.fn = frame.fn
 	vm.curInsts = frame.fn.Instructions
+	vm.ip = frame.ip
 
-	return nil
+	return vm.handleThrownError(frame, err)
 }
 
 func (vm *VM) handleThrownError(frame *frame, err *RuntimeError) error {
